@@ -532,11 +532,20 @@ pub fn replay(payload: &serde_json::Value, prop: &str) {
 
 /// Runs the attacker worlds and returns (stats, violations for `prop`).
 pub fn explore(prop: &str, thorough: bool, budget_s: f64, k_max: u32) -> (mc::Stats, Vec<mc::Violation>, Vec<serde_json::Value>) {
-    let monitors = Monitors { c03: prop == "C03", c04: prop == "C04", c13: prop == "C13", c15: false, c19: false, c20: prop == "C14" || prop == "C20" };
+    let monitors = Monitors { c03: prop == "C03", c04: prop == "C04", c13: prop == "C13", c15: false, c19: prop == "C19", c20: prop == "C14" || prop == "C20" };
     let mut d = driver(thorough);
     // partial passing of a challenge lifetime matters to the expiry clause of C03
     d.halves = thorough || prop == "C03";
-    let cfgs = configs(thorough);
+    let mut cfgs = configs(thorough);
+    if prop == "C19" {
+        // nonce reuse under replayed / repeated handshakes: the crafted peer alone, genuine
+        // handshakes with a verifiable and an unverifiable record, garbage, replays; worst-case RNG
+        d = Attack { handshake_records: vec![1, 3], handshake_sigs: vec![0], replays: true, ways: false, msgs: true, halves: false };
+        cfgs.retain(|(n, _)| n == "x-silent" || (thorough && n == "v-dials-m"));
+        for (_, c) in cfgs.iter_mut() {
+            c.force_nonce = true;
+        }
+    }
     let start = clock::wall();
     let per = budget_s / cfgs.len() as f64;
     let mut total = mc::Stats { states: 0, transitions: 0, executions: 0, steps: 0, max_depth: 0, distinct_terminals: 0, counters: BTreeMap::new(), exhaustive: true, cap: None, per_budget: vec![] };
